@@ -2,7 +2,7 @@
 
 proof : lean/GeosModel/Props/C06.lean
           CORE (FULL)  fillet_step_bound & co.  — segment count / angular step of addDirectedFillet, exact supremum 1.5 quanta
-          CORE (FULL)  params_*                 — parameter normalisation of the C API entry points, totality (and where it fails)
+          CORE (FULL)  params_*                 — parameter normalisation of the C API entry points, totality, exact rejection conditions
           SPEC         d2Seg_exact, cos table soundness — the oracle's distance formula and tolerance table are exact / safe
 tie   : stream fillet  — raw offset curves of two-segment lines: number of arc vertices vs the Lean fillet model
         stream params  — accept/reject, stored and effective parameters through every C API entry point vs the Lean model
@@ -46,17 +46,21 @@ def fields(verdict):
 def signature(case, verdict):
     """Structural key of a failing buffer case (matched against KNOWN_FINDINGS.json).
     mode    : buf (area buffer) | ss (single-sided through GEOSBufferParams) | oc (GEOSOffsetCurve) | ssb (GEOSSingleSidedBuffer)
-    clause  : null | type | invalid | ring | inner | outer | shape (a vertex of a lineal / single-sided result is too far,
-              too near or on the wrong side)
-    selfCrossingRing (mode buf): the input contains a CLOSED LineString that crosses / retraces itself (buffered as a ring by
+    mode buf, a sample location contradicts the specification:
+      band  : e     = the side of the property that carries the tolerance e(q) (d > 0: a location within (1-e)d is missing;
+                      d < 0: a location within (1-e)|d| of the boundary is kept)
+              exact = the side that carries 1e-6 (d > 0: a location beyond (1+1e-6)d is contained; d < 0: a location farther
+                      than (1+1e-6)|d| from the boundary is missing);   zero = distance 0
+      tier  : doc   = only the documented bound is missed; the bound that follows from the fillet step (cos(3 pi / 8q),
+                      fillet_step_bound) resp. the input-simplification allowance (1.01 d) still holds;  gross = even that is missed
+      qle5  : (band e) quadrant segments <= 5, where e(q) is smaller than the real chord error
+      dTiny : (band exact, tier doc) |d| is below 2^-20 of the largest coordinate, where BufferOp's precision ladder is coarser than 1e-6 d
+      selfCrossingRing: the input contains a CLOSED LineString that crosses / retraces itself (buffered as a ring by
               BufferCurveSetBuilder::addLinearRingSides, whose orientation / erosion heuristics assume a simple ring)
-    tier, qle5 (mode buf, inner / outer, no such ring): tier doc = only the documented tolerance e(q) is missed while the bound
-              that follows from the fillet step (cos(3 pi / 8q), fillet_step_bound) still holds; tier gross = even that is
-              missed; qle5 = quadrant segments <= 5 (where e(q) is smaller than the real chord error)
-    dTiny (mode buf, tier doc): |d| is below 2^-20 of the largest coordinate, where BufferOp's precision ladder is coarser than 1e-6 d
-    simpleOpenLines (other modes): false when the input linework is closed or not simple (two segments meet other than
-              consecutive ones at their common vertex, or a point is repeated) or, for single-sided buffers, multi-part;
-              reg: big when |d| exceeds the shortest segment"""
+    mode buf, otherwise: clause = null | type | invalid | ring ...
+    other modes: simpleOpenLines = false when the input linework is closed or not simple (two segments meet other than consecutive
+              ones at their common vertex, or a point is repeated) or, for single-sided buffers, multi-part; dTiny as above;
+              clause shape = a result vertex / band location is wrong; reg = big when |d| exceeds the shortest segment"""
     kv = params_of(case)
     f = fields(verdict)
     mode = kv.get("mode", "buf")
@@ -64,30 +68,35 @@ def signature(case, verdict):
         mode = "ss"
     clause = f["clause"]
     selfx = f.get("selfx") == "1"
+    tiny = f.get("tiny") == "1"
     ring = f.get("closed") == "1" and selfx
     if mode == "buf":
-        sig = {"mode": mode, "clause": clause, "selfCrossingRing": ring}
-        if clause in ("inner", "outer"):
-            try:
-                q = int(f.get("q", kv.get("q", "8")))
-            except ValueError:
-                q = 8
-            tier = f.get("tier", "?")
-            if tier == "doc" and q > 5 and f.get("tiny") == "1":
-                # |d| < 2^-20 of the largest coordinate and only the documented tolerance is missed: the precision-reduction
-                # ladder of BufferOp (12 ... 6 significant digits of the coordinate magnitude) is coarser than 1e-6 d
-                return {"mode": mode, "clause": clause, "tier": "doc", "dTiny": True}
-            if not ring:
-                sig["tier"] = tier
-                sig["qle5"] = q <= 5
+        if clause not in ("inner", "outer"):
+            return {"mode": mode, "clause": clause, "selfCrossingRing": ring}
+        sign = f.get("sign", "1")
+        band = "zero" if sign == "0" else ("e" if (clause == "inner") == (sign == "1") else "exact")
+        tier = f.get("tier", "?")
+        try:
+            q = int(f.get("q", kv.get("q", "8")))
+        except ValueError:
+            q = 8
+        if band == "exact" and tier == "doc" and tiny:
+            return {"mode": mode, "band": band, "tier": tier, "dTiny": True}
+        if ring:
+            return {"mode": mode, "band": band, "selfCrossingRing": True}
+        sig = {"mode": mode, "band": band, "tier": tier, "selfCrossingRing": False}
+        if band == "e":
+            sig["qle5"] = q <= 5
         return sig
     try:
         parts = int(f.get("parts", "1"))
     except ValueError:
         parts = 1
     if selfx or f.get("closed") == "1" or (mode == "ss" and parts > 1):
-        # single-sided buffers / offset curves of linework that is closed or not simple: one class per call
+        # single-sided buffers / offset curves of linework that is closed, not simple or multi-part: one class per call
         return {"mode": mode, "simpleOpenLines": False}
+    if tiny:
+        return {"mode": mode, "simpleOpenLines": True, "dTiny": True}
     if clause == "side-end":
         # a vertex on the wrong side within the distance of a line end: the cap edge of the two-sided buffer was kept
         return {"mode": mode, "clause": "cap-edge-kept", "simpleOpenLines": True}
@@ -254,16 +263,17 @@ def run(ctx):
                 broken.append("params")
                 ctx.violation("parameter handling differs from Model/Buffer/Params.lean: %s impl=%s model=%s" % (case, exp, got),
                               {"kind": "tie-broken", "correspondence": "params", "case": case, "impl": exp, "model": got}, nofail=True)
-        # the literal totality statement is false of the code (theorem params_total_false): styles below 1 are accepted.
-        # Observe it on the implementation: GEOSBufferWithStyle(line, cap = 0) succeeds and returns an EMPTY polygon.
+        # regression guard for /repo commit 1591a29d6 (styles below 1 used to be accepted; cap 0 made the line buffer EMPTY):
+        # GEOSBufferWithStyle(LINESTRING (0 0, 10 0), 1, 8, /*cap*/ 0, 1, 5) must be rejected (Lean: params_total, reject_iff_withStyle)
         probe = os.path.join(ctx.work, "capzero.txt")
         with open(probe, "w") as f:
             f.write("B | WKT LINESTRING (0 0, 10 0) | mode=buf api=1 d=%s q=8 cap=0 join=1 mitre=4014000000000000 ss=0 left=1 pv=1\n" % "3ff0000000000000")
         rc, outp = verif.sh([exe, "replay", probe], timeout=60)
         line = outp.strip().split("\n")[-1] if outp.strip() else ""
-        if "st=ok" in line and line.split(" ## ")[0].split(" | ")[-1].strip().endswith("xy 0"):
-            ctx.violation("GEOSBufferWithStyle accepts endCapStyle 0 (only values > 3 are rejected) and returns POLYGON EMPTY for LINESTRING (0 0, 10 0), d = 1: "
-                          "not every accepted parameter combination is a legal configuration (Lean: params_total_false)",
+        if "st=ok" in line:
+            found_input = True
+            ctx.violation("GEOSBufferWithStyle accepts endCapStyle 0 (returns %s for LINESTRING (0 0, 10 0), d = 1): an accepted parameter combination "
+                          "is not a legal configuration (Lean: params_total)" % gtok.wkt(line.split(" ## ")[0].split(" | ")[-1])[:80],
                           {"kind": "failing-input", "stream": "params", "case": "W 8 0 1 4014000000000000", "observed": line[:400],
                            "replay_case": "B | WKT LINESTRING (0 0, 10 0) | mode=buf api=1 d=3ff0000000000000 q=8 cap=0 join=1 mitre=4014000000000000 ss=0 left=1 pv=1"},
                           signature={"mode": "params", "clause": "enum-below-range-accepted"})
@@ -366,8 +376,8 @@ def replay(ctx, path):
             print("result :", gtok.wkt(parts_of(c2)[-1])[:1500])
         print("verdict:", v)
         if r.get("replay_case"):
-            # parameter finding: the accepted illegal style shows as an empty result for a line
-            if c2 and "st=ok" in c2 and c2.split(" | ")[-1].strip().endswith("xy 0"):
+            # parameter finding: an illegal style was accepted
+            if c2 and "st=ok" in c2:
                 rc = 1
         elif v != "ok":
             rc = 1
